@@ -165,7 +165,7 @@ def all_modes():
 
 ENTRIES = ['run', 'call', 'evaluate', 'import', 'run-code']
 ENVS = ['plain', 'outer-trace', 'outer-patchers', 'before-and-after-code', 'time-module-blocked', 'time-module-replaced', 'html-formatter', 'text-formatter', 'in-a-later-section',
-        'gradescope-formatter', 'vpl-formatter', 'terminal-formatter',
+        'gradescope-formatter', 'vpl-formatter', 'terminal-formatter', 'a-report-of-its-own',
         'failpoint-traceback', 'failpoint-feedback']
 
 
@@ -467,12 +467,47 @@ def runtime_feedbacks(report):
 # one execution under both monitors
 # ----------------------------------------------------------------------------------------------------------
 
-def new_sandbox(files, tracer='none', threaded=False, allowed_time=20):
+class Commands:
+    """pedal.sandbox.commands, every call of which is about one report: the default one (None) or a report the grader keeps to
+    herself (the way a server that grades many submissions in one process does)"""
+    def __init__(self, report=None):
+        self.report = report
+
+    def __getattr__(self, name):
+        import functools
+        from pedal.sandbox import commands
+        fn = getattr(commands, name)
+        if self.report is None or not callable(fn):
+            return fn
+        return functools.partial(fn, report=self.report)
+
+
+OWN_REPORT = [None]         # the report of the cell being executed when it is not the default one
+
+
+def commands_in_use():
+    return Commands(OWN_REPORT[0])
+
+
+def new_sandbox(files, tracer='none', threaded=False, allowed_time=20, own_report=False):
     from pedal.core.commands import clear_report, contextualize_report
-    from pedal.core.report import MAIN_REPORT
+    from pedal.core.report import MAIN_REPORT, Report
     from pedal.core.submission import Submission
     from pedal.sandbox import commands as sbx
     clear_report()
+    OWN_REPORT[0] = None
+    if own_report:
+        # (the default report holds another submission meanwhile: whatever is looked up there by mistake is found, and is wrong)
+        contextualize_report(Submission(files={'answer.py': 'the_default_reports_program = 1\nprint(the_default_reports_program)\n'}, main_file='answer.py'))
+        report = OWN_REPORT[0] = Report()
+        contextualize_report(Submission(files=dict(files), main_file='answer.py'), report=report)
+        sandbox = sbx.get_sandbox(report=report)
+        if tracer != 'none':
+            sandbox.tracer_style = tracer
+        if threaded:
+            sandbox.threaded = True
+            sandbox.allowed_time = allowed_time
+        return sandbox, report
     contextualize_report(Submission(files=dict(files), main_file='answer.py'))
     sandbox = sbx.get_sandbox()
     if tracer != 'none':
@@ -485,7 +520,7 @@ def new_sandbox(files, tracer='none', threaded=False, allowed_time=20):
 
 def drive(sandbox, entry, case):
     """Performs the entry-point call on an already prepared sandbox. Returns the value returned."""
-    from pedal.sandbox import commands as sbx
+    sbx = commands_in_use()
     if entry in ('run', 'import'):
         if case.get('env') == 'before-and-after-code':
             # the instructor wraps the student's program between two snippets of her own
@@ -528,11 +563,12 @@ def execute_case(ctx, which, case, state=None):
         files['answer.py'] = '\n' + files['answer.py']        # the section's own text starts with the marker line's end
         case['line_shift'] = SECTION_PROLOGUE.count('\n')
     try:
-        sandbox, report = new_sandbox(sandbox_files, tracer, threaded, allowed_time=0.15 if kind == 'timeout' else 20)
+        sandbox, report = new_sandbox(sandbox_files, tracer, threaded, allowed_time=0.15 if kind == 'timeout' else 20,
+                                      own_report=case.get('env') == 'a-report-of-its-own')
     except ImportError:
         ctx.count('tracer_unavailable')
         return
-    from pedal.sandbox import commands as sbx
+    sbx = commands_in_use()
     if in_section:
         from pedal.source import separate_into_sections, next_section
         separate_into_sections(independent=True)
@@ -595,7 +631,7 @@ def execute_case(ctx, which, case, state=None):
 
 
 def _measured(ctx, which, case, sandbox, report, files, inputs, n_rt_before):
-    from pedal.sandbox import commands as sbx
+    sbx = commands_in_use()
     mode, entry, tracer, threaded = case['mode'], case['entry'], case.get('tracer', 'none'), case.get('threaded', False)
     kind = case['kind']
     key_tail = '%s|%s' % (entry, 'threaded' if threaded else 'direct')
@@ -838,7 +874,7 @@ def case_matrix(ctx, which):
                     if m['kind'] == 'timeout' and (not threaded or which != 'C05'):
                         continue        # only a threaded execution has a time limit (and only C05 looks at what is left behind)
                     for pos in ('first', 'after-failure', 'after-ok', 'after-clear_context', 'the-same-execution-before'):
-                        for env in (ENVS if which == "C05" else ENVS[:12]):
+                        for env in (ENVS if which == "C05" else ENVS[:13]):
                             if env.startswith('failpoint') and m['kind'] in ('ok',):
                                 continue
                             c = dict(m)
